@@ -1045,6 +1045,11 @@ impl<C: CellType> OptRebuild<'_, C> {
     ) -> HashMap<isize, Expr<C>> {
         let mut linear = HashMap::new();
         for var in vars {
+            if sub_state.written.contains_key(&var) {
+                // Part of the increment has already been performed when the pending
+                // operations run, so the value is not the one from the iteration start.
+                continue;
+            }
             if let Some(complete) = sub_state.get(var) {
                 if let Some(inc) = complete.inc_of(var) {
                     if inc.variables().all(|x| constant.contains(&x)) {
